@@ -129,6 +129,10 @@ impl RollingReader {
         let directory = Directory::open(dir_path)?;
         let first_file = directory.first_file_number().clone();
         let mut file = directory.open_file(&first_file)?;
+        if directory.files.count() == 1 && file.metadata()?.len() < FILE_NUM_BYTES as u64 {
+            // A crash between the creation of the very first file and its sizing leaves it short.
+            file.set_len(FILE_NUM_BYTES as u64)?;
+        }
         let mut block = Box::new([0u8; BLOCK_NUM_BYTES]);
         file.read_exact(&mut *block)?;
         Ok(RollingReader {
